@@ -2,6 +2,7 @@
 
 #include <array>
 #include <cstring>
+#include <limits>
 #include <memory>
 #include <type_traits>
 #include <utility>
@@ -592,8 +593,14 @@ private:
       return nullptr;
     }
 
+    // The range occupied in sandbox memory depends on the size of the element
+    // under the sandbox's ABI, which may differ from the application's
+    using T_SbxEl = tainted_volatile<T_CopyAndVerifyRangeEl, T_Sbx>;
+    detail::dynamic_check(
+      count <= std::numeric_limits<std::size_t>::max() / sizeof(T_SbxEl),
+      "Range size overflow in copy_and_verify_range/copy_and_verify_string");
     detail::check_range_doesnt_cross_app_sbx_boundary<T_Sbx>(
-      start, count * sizeof(T_CopyAndVerifyRangeEl));
+      start, count * sizeof(T_SbxEl));
 
     return start;
   }
@@ -609,10 +616,13 @@ private:
 
     auto target = std::make_unique<T_CopyAndVerifyRangeEl[]>(count);
 
+    // Read each element through the sandbox's representation of the type,
+    // starting from the pointer value that was range checked above
+    using T_ConstEl = const T_CopyAndVerifyRangeEl;
+    auto checked_start = tainted<T_ConstEl*, T_Sbx>::internal_factory(
+      reinterpret_cast<T_ConstEl*>(start));
     for (size_t i = 0; i < count; i++) {
-      auto p_src_i_tainted = &(impl()[i]);
-      auto p_src_i = p_src_i_tainted.get_raw_value();
-      detail::convert_type_fundamental_or_array(target[i], *p_src_i);
+      target[i] = checked_start[i].get_raw_value();
     }
 
     return target;
